@@ -114,7 +114,10 @@ Fixpoint perms (l : list N) : list (list N) :=
      reported only if some reordering takes strictly fewer slots; never if the declared order
      is optimal (the same condition, contraposed); always if both sort directions save a slot *)
 Definition some_order_better (l : list N) : bool :=
-  let n := slots_spec l in existsb (fun p => slots_spec p <? n) (perms l).
+  let n := slots_spec l in
+  (* candidate reorderings: the ascending sort first, then every permutation
+     (`if`, not `||`: vm_compute is call-by-value) *)
+  if slots_spec (sort_u16 l) <? n then true else existsb (fun p => slots_spec p <? n) (perms l).
 Definition both_sorts_better (l : list N) : bool :=
   let n := slots_spec l in
   (slots_spec (sort_u16 l) <? n) && (slots_spec (rev (sort_u16 l)) <? n).
@@ -154,7 +157,7 @@ Definition size_at (i : N) : N := 8 * (i + 1).
      1 model slots <> implementation        2 implementation <> layout rule (slots_spec)
      3 model verdict <> contract detector   4 model verdict <> struct detector
      5 verdict violates the property (short sequences: all reorderings tried; long ones:
-       reported although the declared order already meets the lower bound ceil(sum/256),
+       reported although the declared order already meets the lower bound ceil(total/256),
        or not reported although both sorts save a slot) *)
 Definition all_size_ok (l : list N) : bool := forallb (fun s => (0 <? s) && (s <=? 256)) l.
 
@@ -171,6 +174,16 @@ Definition check_slots (l : list N) (impl : N * N * N) : list N :=
   (if dom && (0 <? ic) then
      let b := ic =? 2 in
      let ok := if Nat.leb (List.length l) 6 then verdict_ok l b
-               else if b then (sum l + 255) / 256 <? slots_spec l else negb (both_sorts_better l) in
+               else if b then (total l + 255) / 256 <? slots_spec l else negb (both_sorts_better l) in
      if ok then [] else [5]
    else []).
+
+(* ------------------------------------------------------------------ C09: version strings
+   the pieces returned by get_solidity_major_minor_patch_version as byte lists, and for each
+   piece the code of parse_i32 (value + 1, 0 for the panic of `.parse::<i32>().unwrap()`) *)
+Fixpoint str_bytes (s : string) : list N :=
+  match s with EmptyString => [] | String c r => N_of_ascii c :: str_bytes r end.
+
+Definition ver_answer (s : string) : list (list N) * list N :=
+  let ps := get_solidity_major_minor_patch_version s in
+  (map str_bytes ps, map (fun p => codeZ (parse_i32 p)) ps).
